@@ -2,6 +2,7 @@
 //! One sub-command per property; each writes a result file for the driver.
 
 mod c02;
+mod c03;
 mod c05;
 mod c13;
 mod c18;
@@ -9,10 +10,16 @@ mod jsonref;
 
 use hvcommon::args::Args;
 
+#[global_allocator]
+static GLOBAL: hvcommon::alloc::Counting = hvcommon::alloc::Counting;
+
 fn main() {
     let args = Args::from_env();
     match args.cmd() {
         "c02" => c02::main(&args),
+        "c03" => c03::main(&args),
+        "c03-worker" => c03::worker(&args),
+        "c03-one" => c03::one(&args),
         "c05" => c05::main(&args),
         "c13" => c13::main(&args),
         "c18" => c18::main(&args),
